@@ -1,5 +1,6 @@
 (* C08 — a failing Apply returns nothing and says why (v5). *)
 From JP Require Import Bytes Json Text Strings Den Pointer Rfc6902 ImplV5 Domain ApplyFacts ImplFacts Depth ApplySim.
+From JP Require Import Abs RefFacts AllowEnsureFacts CauseFacts.
 
 (* operations after the first failing one have no effect on the outcome: the result is the first
    failing operation's error, at its index, whatever follows *)
@@ -59,6 +60,256 @@ Theorem C08_all_succeed : forall o p st,
   exists st', apply_from o 0 st p = AOk st'.
 Proof. intros. now apply all_succeed. Qed.
 Print Assumptions C08_all_succeed.
+
+(* ==== the cause/class statements WITH the options (CauseFacts.v) ==== *)
+
+(* the limit error, on the model alone, every option setting, no domain: Apply returns it exactly when
+   the first failing operation is a copy that reaches deepCopy (copy_probe) with a size that pushes
+   the running total over a positive limit (copy_over); it carries that limit and that total *)
+Theorem C08_limit_error_iff : forall o p i st k l a,
+  apply_from o i st p = AErr k (ECopyLimit l a) <->
+  exists p1 op p2 st1, p = p1 ++ op :: p2 /\ k = (i + length p1)%nat /\ apply_from o i st p1 = AOk st1 /\
+                       copy_over o st1 op = Some a /\ l = o_limit o.
+Proof. exact apply_limit_iff. Qed.
+Print Assumptions C08_limit_error_iff.
+
+(* the limit is consulted at one point only: an operation under limit l is the limit error when
+   copy_over says so, and otherwise exactly the operation under limit 0; a successful copy adds
+   deepCopy's size to the running total, every other operation leaves it *)
+Theorem C08_step_split : forall o st op,
+  step o st op =
+  match copy_over o st op with
+  | Some total => Err (ECopyLimit (o_limit o) total)
+  | None => step (set_limit o 0) st op
+  end.
+Proof. exact step_split. Qed.
+Print Assumptions C08_step_split.
+
+Theorem C08_step_acc : forall o st op st',
+  step o st op = Ok st' ->
+  match op_kind op with
+  | KCopy => exists sz, copy_probe o st op = Some sz /\ s_acc st' = (s_acc st + sz)%Z
+  | _ => s_acc st' = s_acc st
+  end.
+Proof. exact step_acc. Qed.
+Print Assumptions C08_step_acc.
+
+(* when a copy of the stated domain trips the limit, against the reference: exactly when the
+   reference resolves the source and reaches the destination parent (copy_reaches), and the running
+   total plus deepCopy's size of a node denoting the source value exceeds a positive limit (over) *)
+Theorem C08_copy_over_ref : forall o st op,
+  sgood st -> op_dom op -> op_kind op = KCopy -> copy_fits (dia o) (sval st) (den_op op) = true ->
+  match copy_reaches (dia o) (sval st) op with
+  | Some j => exists v, aval v = j /\ ngood v /\ copy_probe o st op = Some (snd (deep_copy o v)) /\
+                copy_over o st op = if over o st (snd (deep_copy o v))
+                                    then Some (s_acc st + snd (deep_copy o v))%Z else None
+  | None => copy_over o st op = None
+  end.
+Proof. exact copy_over_ref. Qed.
+Print Assumptions C08_copy_over_ref.
+
+(* one operation under any copy-size limit (the two other options off): the limit error at a copy
+   the reference performs or rejects for its destination index only; otherwise as the reference *)
+Theorem C08_step_limit : forall o st op,
+  sgood st -> lim_opts o -> op_dom op ->
+  copy_fits (dia o) (sval st) (den_op op) = true ->
+  match copy_over o st op with
+  | Some total =>
+      step o st op = Err (ECopyLimit (o_limit o) total) /\ op_kind op = KCopy /\
+      (0 < o_limit o)%Z /\ (o_limit o < total)%Z /\
+      (exists j v, copy_reaches (dia o) (sval st) op = Some j /\ aval v = j /\ ngood v /\
+                   total = (s_acc st + snd (deep_copy o v))%Z) /\
+      ((exists j', rfc_step (dia o) (sval st) (den_op op) = Rfc6902.Ok j') \/
+       rfc_step (dia o) (sval st) (den_op op) = Rfc6902.Fail FIndex)
+  | None =>
+      match rfc_step (dia o) (sval st) (den_op op) with
+      | Rfc6902.Ok j' => exists st', step o st op = Ok st' /\ sval st' = j' /\ sgood st'
+      | Rfc6902.Fail cz => exists e, step o st op = Err e /\ cause_rel cz e
+      end
+  end.
+Proof. exact step_sim_limit. Qed.
+Print Assumptions C08_step_limit.
+
+(* whole patches under any limit: the model run agrees with the reference run, or is stopped by the
+   limit at a copy before which every operation agreed with the reference (limit_stop) *)
+Theorem C08_apply_limit : forall o, lim_opts o -> forall p i st,
+  sgood st -> Forall op_dom p ->
+  copies_fit (dia o) (sval st) (map den_op p) = true ->
+  match rfc_apply_from (dia o) i (sval st) (map den_op p) with
+  | Done doc => (exists st', apply_from o i st p = AOk st' /\ sval st' = doc /\ sgood st') \/ limit_stop o i st p
+  | Failed j cz => (exists e, apply_from o i st p = AErr j e /\ cause_rel cz e) \/ limit_stop o i st p
+  end.
+Proof. exact apply_sim_limit. Qed.
+Print Assumptions C08_apply_limit.
+
+(* C08_cause with any copy-size limit: the reference fails at operation k with cause cz; Apply fails
+   there with the corresponding class, or was stopped by the limit at a copy at or before k (at k
+   only when the reference rejects that copy for its destination index) *)
+Theorem C08_cause_limit : forall o indent p doc t,
+  lim_opts o -> parse doc = Some t -> root_container t = true -> tnodup t = true ->
+  Forall op_dom p -> copies_fit (dia o) (den t) (map den_op p) = true ->
+  forall k cz, rfc_apply (dia o) (den t) (map den_op p) = Failed k cz ->
+  (exists e, api_apply o indent p doc = RErr (Some k) e /\ cause_rel cz e /\
+             (e = ETestFailed <-> cz = FTest) /\
+             (cz = FMissingMember \/ cz = FUnreachable -> e = EMissing) /\
+             is_copy_limit e = false) \/
+  (exists k' total op, (k' <= k)%nat /\ (k' = k -> cz = FIndex) /\
+             (0 < o_limit o)%Z /\ (o_limit o < total)%Z /\
+             nth_error p k' = Some op /\ op_kind op = KCopy /\
+             api_apply o indent p doc = RErr (Some k') (ECopyLimit (o_limit o) total)).
+Proof. exact api_cause_limit. Qed.
+Print Assumptions C08_cause_limit.
+
+(* a patch the reference runs to the end returns no error except the limit error *)
+Theorem C08_done_limit : forall o indent p doc t,
+  lim_opts o -> parse doc = Some t -> root_container t = true -> tnodup t = true ->
+  Forall op_dom p -> copies_fit (dia o) (den t) (map den_op p) = true ->
+  forall j, rfc_apply (dia o) (den t) (map den_op p) = Done j ->
+  (exists n, api_apply o indent p doc = ROut (output o indent (render (o_esc o) n)) /\ aval n = j /\ ngood n) \/
+  (exists k' total op, (0 < o_limit o)%Z /\ (o_limit o < total)%Z /\
+             nth_error p k' = Some op /\ op_kind op = KCopy /\
+             api_apply o indent p doc = RErr (Some k') (ECopyLimit (o_limit o) total)).
+Proof. exact api_done_limit. Qed.
+Print Assumptions C08_done_limit.
+
+(* the three classes, read off the error of a failing Apply (any limit):
+   (a) ErrTestFailed exactly when the first failing operation is a test and the reference fails
+       there because the comparison came out unequal;
+   (b) the limit error exactly when the patch was stopped by the limit (limit_stop);
+   (c) the reference fails at that operation for an absent member or an unreachable parent:
+       ErrMissing *)
+Theorem C08_error_classes_limit : forall o indent p doc t,
+  lim_opts o -> parse doc = Some t -> root_container t = true -> tnodup t = true ->
+  Forall op_dom p -> copies_fit (dia o) (den t) (map den_op p) = true ->
+  forall k e, api_apply o indent p doc = RErr (Some k) e ->
+  (e = ETestFailed <->
+     (exists op, nth_error p k = Some op /\ op_kind op = KTest) /\
+     rfc_apply (dia o) (den t) (map den_op p) = Failed k FTest) /\
+  (is_copy_limit e = true <-> limit_stop o 0 (init_state o t) p) /\
+  (forall cz, rfc_apply (dia o) (den t) (map den_op p) = Failed k cz ->
+              cz = FMissingMember \/ cz = FUnreachable -> e = EMissing).
+Proof. exact api_error_classes. Qed.
+Print Assumptions C08_error_classes_limit.
+
+(* AllowMissingPathOnRemove on (limit 0): the causes are those of the patch without the skipped
+   removes: its reference run fails at the same operation, and the classes correspond *)
+Theorem C08_allow_classes : forall o p i st k1 e,
+  allow_opts o -> sgood st -> Forall op_dom p ->
+  copies_fit (dia o) (sval st) (map den_op (strip (dia o) (sval st) p)) = true ->
+  apply_from o i st p = AErr k1 e ->
+  exists k cz,
+    rfc_apply_from (dia o) i (sval st) (map den_op (strip (dia o) (sval st) p)) = Failed k cz /\
+    cause_rel cz e /\
+    nth_error p (k1 - i) = nth_error (strip (dia o) (sval st) p) (k - i) /\
+    (e = ETestFailed <-> cz = FTest) /\
+    (cz = FMissingMember \/ cz = FUnreachable -> e = EMissing) /\
+    is_copy_limit e = false.
+Proof. exact allow_classes. Qed.
+Print Assumptions C08_allow_classes.
+
+(* EnsurePathExistsOnAdd off, AllowMissingPathOnRemove on or off, any limit, on bytes: the classes
+   against the reference run of the patch without the removes the option forgives (stripb; the
+   patch itself when the option is off: stripb_false) *)
+Theorem C08_classes_ensure_off : forall o indent p doc t k1 e,
+  o_ensure o = false -> parse doc = Some t -> root_container t = true -> tnodup t = true ->
+  Forall op_dom p ->
+  copies_fit (dia o) (den t) (map den_op (stripb (o_allow o) (dia o) (den t) p)) = true ->
+  api_apply o indent p doc = RErr (Some k1) e ->
+  let p' := stripb (o_allow o) (dia o) (den t) p in
+  let ref := rfc_apply (dia o) (den t) (map den_op p') in
+  (e = ETestFailed <-> exists k, ref = Failed k FTest /\ nth_error p k1 = nth_error p' k) /\
+  (is_copy_limit e = true <-> limit_stop_s o 0 0 (init_state o t) p) /\
+  (forall k cz, ref = Failed k cz -> cz = FMissingMember \/ cz = FUnreachable ->
+     (e = EMissing /\ nth_error p k1 = nth_error p' k) \/ is_copy_limit e = true) /\
+  ((exists k cz, ref = Failed k cz /\ cause_rel cz e /\ nth_error p k1 = nth_error p' k) \/
+   is_copy_limit e = true).
+Proof. exact api_noensure_classes. Qed.
+Print Assumptions C08_classes_ensure_off.
+
+(* EnsurePathExistsOnAdd on.  Where the missing parents can be created (ens succeeds) the add is the
+   reference's add on the document with the parents created, and its error class is that add's *)
+Theorem C08_ensure_add_classes : forall o st op r c j1 cz,
+  s_root st = RCon c -> cgood c -> o_ensure o = true ->
+  op_str op (B "path") = Ok (x2f :: r) -> Forall ctok (map decode_token (split_slash r)) -> val_good op ->
+  ens (dia o) (ptoks r) (cval c) = Some j1 ->
+  at_parent (dia o) (ptoks r) j1 (add_leaf (dia o) (ref_value op)) = Rfc6902.Fail cz ->
+  exists e, op_add o st op = Err e /\ cause_rel cz e /\ plain_err e = true.
+Proof. exact ensure_add_classes. Qed.
+Print Assumptions C08_ensure_add_classes.
+
+(* an add whose path passes, before its last token, through an existing member that is neither a
+   container nor null (the reference: FUnreachable): ErrMissing with the option, as without it.
+   (Before fix 584e880 of the library this returned ErrInvalid: the ErrMissing clause was false under
+   EnsurePathExistsOnAdd; found by this proof.) *)
+Theorem C08_ensure_through_scalar : forall o st op r c ps t rest x,
+  s_root st = RCon c -> cgood c -> o_ensure o = true ->
+  op_str op (B "path") = Ok (x2f :: r) -> Forall tok_dom (map decode_token (split_slash r)) ->
+  ptoks r = ps ++ t :: rest -> rest <> [] ->
+  descend (dia o) (ps ++ [t]) (cval c) = Some x -> is_container x = false -> x <> ONull ->
+  op_add o st op = Err EMissing /\
+  at_parent (dia o) (ptoks r) (cval c) (add_leaf (dia o) (ref_value op)) = Rfc6902.Fail FUnreachable.
+Proof. exact ensure_through_scalar. Qed.
+Print Assumptions C08_ensure_through_scalar.
+
+(* with the option on, ensurePathExists never fails on a path of the C14 domain and leaves a good
+   document c1 (the one ens describes whenever ens succeeds); the add is the reference's add on it *)
+Theorem C08_ensure_add_general : forall o st op r c,
+  s_root st = RCon c -> cgood c -> o_ensure o = true ->
+  op_str op (B "path") = Ok (x2f :: r) -> Forall ctok (map decode_token (split_slash r)) -> val_good op ->
+  exists c1, ensure_path o c (x2f :: r) = (None, c1) /\ cgood c1 /\
+    (forall j1, ens (dia o) (ptoks r) (cval c) = Some j1 -> cval c1 = j1) /\
+    match at_parent (dia o) (ptoks r) (cval c1) (add_leaf (dia o) (ref_value op)) with
+    | Rfc6902.Ok j' => exists st', op_add o st op = Ok st' /\ sval st' = j' /\ sgood st' /\ s_acc st' = s_acc st
+    | Rfc6902.Fail cz => exists e, op_add o st op = Err e /\ cause_rel cz e
+    end.
+Proof. exact ensure_add_general. Qed.
+Print Assumptions C08_ensure_add_general.
+
+(* hence the classes an add can report with the option on: ErrMissing, or an index error for its
+   last token; never ErrInvalid *)
+Theorem C08_ensure_add_errs : forall o st op r c e,
+  s_root st = RCon c -> cgood c -> o_ensure o = true ->
+  op_str op (B "path") = Ok (x2f :: r) -> Forall ctok (map decode_token (split_slash r)) -> val_good op ->
+  op_add o st op = Err e -> e = EMissing \/ e = EInvalidIndex \/ e = EAtoi.
+Proof. exact ensure_add_errs. Qed.
+Print Assumptions C08_ensure_add_errs.
+
+(* the ErrMissing clause under EnsurePathExistsOnAdd: the reference's add, on the document with the
+   missing parents created (ens) or on the document itself when an existing scalar is on the way,
+   fails for an unreachable parent or an absent member: ErrMissing *)
+Theorem C08_ensure_add_missing : forall o st op r c doc1 cz,
+  s_root st = RCon c -> cgood c -> o_ensure o = true ->
+  op_str op (B "path") = Ok (x2f :: r) -> Forall ctok (map decode_token (split_slash r)) -> val_good op ->
+  (ens (dia o) (ptoks r) (cval c) = Some doc1 \/
+   (doc1 = cval c /\ exists ps t rest x, ptoks r = ps ++ t :: rest /\ rest <> [] /\
+       descend (dia o) (ps ++ [t]) (cval c) = Some x /\ is_container x = false /\ x <> ONull)) ->
+  at_parent (dia o) (ptoks r) doc1 (add_leaf (dia o) (ref_value op)) = Rfc6902.Fail cz ->
+  cz = FMissingMember \/ cz = FUnreachable ->
+  op_add o st op = Err EMissing.
+Proof. exact ensure_add_missing. Qed.
+Print Assumptions C08_ensure_add_missing.
+
+(* the formerly wrong input: {"a":1}, [{"op":"add","path":"/a/b","value":1}], option on: ErrMissing *)
+Example C08_ensure_repaired :
+  match api_decode (B "[{""op"":""add"",""path"":""/a/b"",""value"":1}]"), parse (B "{""a"":1}") with
+  | Some p, Some t =>
+      api_apply (mkOpts false 0 false true false [] None) [] p (B "{""a"":1}") = RErr (Some 0%nat) EMissing /\
+      api_apply (mkOpts false 0 false false false [] None) [] p (B "{""a"":1}") = RErr (Some 0%nat) EMissing /\
+      rfc_apply (mkDialect false) (den t) (map den_op p) = Failed 0 FUnreachable
+  | _, _ => False
+  end.
+Proof. vm_compute. repeat split; reflexivity. Qed.
+
+(* non-vacuity of the limit clauses: {"a":[1],"b":"xxxxxxxxxx"}, test /a/0 1, copy /b -> /c (12 bytes),
+   remove /zz: limit 3 stops at the copy; limit 12 lets it pass and the remove is reported missing *)
+Example C08_limit_nonvacuous :
+  match api_decode (B "[{""op"":""test"",""path"":""/a/0"",""value"":1},{""op"":""copy"",""from"":""/b"",""path"":""/c""},{""op"":""remove"",""path"":""/zz""}]") with
+  | Some p =>
+      api_apply (mkOpts false 3 false false false [] None) [] p (B "{""a"":[1],""b"":""xxxxxxxxxx""}") = RErr (Some 1%nat) (ECopyLimit 3 12) /\
+      api_apply (mkOpts false 12 false false false [] None) [] p (B "{""a"":[1],""b"":""xxxxxxxxxx""}") = RErr (Some 2%nat) EMissing
+  | None => False
+  end.
+Proof. vm_compute. split; reflexivity. Qed.
 
 (* non-vacuity: {"a":[1]}: test /a/0 1, remove /b (absent member: missing), add /c 2 *)
 Example C08_nonvacuous :
